@@ -2,6 +2,7 @@ import AdeuModel.Lemmas.LGrow
 import AdeuModel.Lemmas.ComGrow
 import AdeuModel.Lemmas.Engine
 import AdeuModel.Lemmas.Grow
+import AdeuModel.Lemmas.ShownWith
 /-
 C10 — comments requested with an edit or a reply are never lost or misattached (model-level clauses).
 -/
@@ -28,6 +29,52 @@ theorem C10_anchor_encloses (ns : List Node) (i j : Nat) (cid : Str) :
 example : attachCommentNodes [.other "a".toList, .other "del".toList, .other "ins".toList, .other "z".toList] 1 2 "7".toList =
     [.other "a".toList, .cs "7".toList, .other "del".toList, .other "ins".toList, .ce "7".toList,
      .run (crefRun "7".toList), .other "z".toList] := by decide
+
+/-! ### shown with the change (reader model on what the engine writes) -/
+
+/-- A comment attached to an insertion (`⟨range start⟩ ⟨w:ins: text run⟩ ⟨range end⟩ ⟨reference⟩`, the shape
+`attachCommentNodes` leaves - C10_anchor_encloses) is read back with it: the metadata of the paragraph's raw view is
+built from a snapshot in which the insertion's id *and* the comment's id are open, so `[Chg:id]` and the comment's
+thread are rendered in the same `{>>…<<}` block behind the inserted text (C04_meta_blocks_are_rendered_groups,
+C04_block_lists_open_changes_once).  Any paragraph content before / after; the run is plain text outside a hidden
+PAGE / NUMPAGES field. -/
+theorem C10_comment_shown_with_insertion (cm : CMap) (p : Para) (pre post : List Node) (cid : Str) (rev : Rev) (r : Run)
+    (hn : p.nodes = pre ++ ([.cs cid, .ins rev [.run r], .ce cid, .run (crefRun cid)] ++ post))
+    (hst : (stAfter {} pre 0).hide = false) (hr : r.ch.all isT = true)
+    (hseg : (applyFormatting (runText r) (runMarkers r).1 (runMarkers r).2).isEmpty = false) :
+    ∃ snap ∈ (metaGroups cm p).flatten, cid ∈ snap.comments ∧ rev.id ∈ snap.ins.map (·.1) :=
+  comment_shown_with_insertion cm p pre post cid rev r hn hst hr hseg
+
+/-- … a comment on a pure deletion with the deleted text … -/
+theorem C10_comment_shown_with_deletion (cm : CMap) (p : Para) (pre post : List Node) (cid : Str) (rev : Rev) (r : Run)
+    (hn : p.nodes = pre ++ ([.cs cid, .del rev [r], .ce cid, .run (crefRun cid)] ++ post))
+    (hseg : (applyFormatting (runText r) (runMarkers r).1 (runMarkers r).2).isEmpty = false) :
+    ∃ snap ∈ (metaGroups cm p).flatten, cid ∈ snap.comments ∧ rev.id ∈ snap.del.map (·.1) :=
+  comment_shown_with_deletion cm p pre post cid rev r hn hseg
+
+/-- … and a comment on a replacement with the inserted half of it. -/
+theorem C10_comment_shown_with_replacement (cm : CMap) (p : Para) (pre post : List Node) (cid : Str) (rd ri : Rev) (dr r : Run)
+    (hn : p.nodes = pre ++ ([.cs cid, .del rd [dr], .ins ri [.run r], .ce cid, .run (crefRun cid)] ++ post))
+    (hst : (stAfter {} pre 0).hide = false) (hr : r.ch.all isT = true)
+    (hseg : (applyFormatting (runText r) (runMarkers r).1 (runMarkers r).2).isEmpty = false) :
+    ∃ snap ∈ (metaGroups cm p).flatten, cid ∈ snap.comments ∧ ri.id ∈ snap.ins.map (·.1) :=
+  comment_shown_with_replacement cm p pre post cid rd ri dr r hn hst hr hseg
+
+/-- non-vacuity: `Hello {--big--}{++small++} world` with comment 7 on the replacement -/
+def shownPara : Para :=
+  { style := none, ppr := [], nodes :=
+    [.run { b := none, i := none, rest := [], ch := [.t "Hello ".toList] }] ++
+    ([.cs "7".toList,
+      .del ⟨"1".toList, some "Q7".toList, none⟩ [{ b := none, i := none, rest := [], ch := [.dt "big".toList] }],
+      .ins ⟨"2".toList, some "Q7".toList, none⟩ [.run { b := none, i := none, rest := [], ch := [.t "small".toList] }],
+      .ce "7".toList, .run (crefRun "7".toList)] ++
+     [.run { b := none, i := none, rest := [], ch := [.t " world".toList] }]) }
+
+example : ∃ snap ∈ (metaGroups [] shownPara).flatten, "7".toList ∈ snap.comments ∧ "2".toList ∈ snap.ins.map (·.1) :=
+  C10_comment_shown_with_replacement [] shownPara _ _ _ _ _ _ _ rfl (by decide) (by decide) (by decide)
+
+example : paraText false [("7".toList, ⟨"Q7".toList, "why".toList, [], false, none⟩)] shownPara =
+    "Hello {--big--}{++small++}{>>[Chg:1] Q7\n[Chg:2] Q7\n[Com:7] Q7: why<<} world".toList := by decide
 
 /-- Existing comments keep their entry (text, author, date, paragraph ids, threading record) and their
 position in all four comment parts, whatever the batch does: the lists only grow at the end. -/
